@@ -524,6 +524,9 @@ extern int total_queries;
             FAIL(errlabel, CIF_INTERNAL_ERROR); \
         case CIF_NUMB_KIND: \
             _value->as_numb.quoted = (sqlite3_column_int(_stmt, _col_ofs + 1) ? CIF_QUOTED : CIF_NOT_QUOTED); \
+            /* the value must be safe to clean even if not all of its parts can be retrieved: */ \
+            _value->as_numb.digits = NULL; \
+            _value->as_numb.su_digits = NULL; \
             GET_COLUMN_STRING(_stmt, _col_ofs + 3, _value->as_numb.text, HANDLER_LABEL(errlabel)); \
             GET_COLUMN_BYTESTRING(_stmt, _col_ofs + 4, _value->as_numb.digits, HANDLER_LABEL(errlabel)); \
             if ((_value->as_numb.text != NULL) && (*(_value->as_numb.text) != 0) && (_value->as_numb.digits != NULL) \
@@ -537,6 +540,8 @@ extern int total_queries;
         case CIF_LIST_KIND: \
         case CIF_TABLE_KIND: \
             _blob = (const void *) sqlite3_column_blob(_stmt, _col_ofs + 2); \
+            /* the value holds nothing to clean unless and until it is successfully deserialized: */ \
+            _value->kind = CIF_UNK_KIND; \
             if ((_blob != NULL) && (cif_value_deserialize( \
                     _blob, (size_t) sqlite3_column_bytes(_stmt, _col_ofs + 2), _value) == CIF_OK)) { \
                 break; \
